@@ -19,4 +19,20 @@ PROPS = {
             "a voucher naming the same merge lane twice subtracts that lane once per list entry (code and model agree; exhibited as an example, recorded in notes)",
         ],
     },
+    "C18": {
+        "lean_targets": ["BA.Props.C18"],
+        "harness": "c18",
+        "translators": ["extract_constants.py", "extract_opcodes.py"],
+        "timeout": 3 * 3600,
+        "trusted_base": COMMON_TB + [
+            "values instructions compute, results of nested calls / precompiles / runtime queries are environment answers of the abstract machine (universally quantified); storage contents are not modelled (C17/C19 own them)",
+            "the runtime's rule that a read-only caller can only make read-only sends (FVM; implemented by the harness VM) is an assumption of readonly_sticky; the actor-side flag (READ_ONLY iff STATICCALL, System.readonly = rt.read_only()) is extracted from the source",
+            "memory safety of the two unsafe blocks of stack.rs is argued through the length invariant and the index preconditions proved for dup/swap_top/pop_many — not a proof about Rust's memory model",
+            "tools/extract_opcodes.py (regex translator of def_opcodes!/def_*! macros, stack.rs comparisons, get_memory_region, Bytecode::new, read-only guards) — fails loudly on unknown shapes",
+        ],
+        "assumptions": [
+            "natively there is no gas: arbitrary byte strings are rewritten to forward-only jumps before they are run (loops are exercised by the model only); call depth is capped",
+            "accepted memory accesses near 4 GiB are not executed on the real interpreter (they would really allocate); the rejecting side of every bound and small accepted regions are",
+        ],
+    },
 }
